@@ -298,4 +298,43 @@ impl TokenBadge {
         r is Ok ==> old(ctx.accounts).fee_authority.skey() == old(ctx.accounts).config.data.fee_authority && old(ctx.accounts).fee_authority.info.is_signer, //# C04
         r is Ok ==> final(ctx.accounts).config_extension.data == (WhirlpoolsConfigExtension { whirlpools_config: old(ctx.accounts).config.skey(), config_extension_authority: old(ctx.accounts).fee_authority.skey(), token_badge_authority: old(ctx.accounts).fee_authority.skey() }), //# C04
 //@ end
+
+// ------------------------------------------------------------------ admin-gated instructions (auth/admin.rs)
+//@ assume admin shims: the ADMINS table (three cfg variants of two base58 keys each) is an opaque two-element array; `ADMINS.iter().any(|admin| maybe_admin.eq(admin))` is the named helper any_admin_eq with the std meaning; ConfigFeatureFlag / update_feature_flags (bitflags `set`) is an external stub over the uninterpreted function flags_after
+pub uninterp spec fn admin_key(i: int) -> Pubkey;
+pub open spec fn is_admin_key_spec(k: Pubkey) -> bool { k == admin_key(0) || k == admin_key(1) }
+pub struct AdminTable {}
+pub const ADMINS: AdminTable = AdminTable {};
+#[verifier::external_body]
+pub fn any_admin_eq(t: &AdminTable, k: &Pubkey) -> (r: bool) ensures r == is_admin_key_spec(*k) { unimplemented!() }
+//@ fn auth/admin.rs is_admin_key -> r
+    ensures r == is_admin_key_spec(*maybe_admin),
+//@ rewrite /ADMINS\.iter\(\)\.any\(\|admin\| maybe_admin\.eq\(admin\)\)/ => /any_admin_eq(&ADMINS, maybe_admin)/
+//@ end
+//@ enum state/config.rs ConfigFeatureFlag
+pub uninterp spec fn flags_after(flags: u16, f: ConfigFeatureFlag) -> u16;
+impl WhirlpoolsConfig {
+    #[verifier::external_body]
+    pub fn update_feature_flags(&mut self, feature_flag: ConfigFeatureFlag) -> (r: Result<()>)
+        ensures r is Ok, *final(self) == (WhirlpoolsConfig { feature_flags: flags_after(old(self).feature_flags, feature_flag), ..*old(self) }) { unimplemented!() }
+}
+//@ struct instructions/initialize_config.rs InitializeConfig
+//@ constraints instructions/initialize_config.rs InitializeConfig fn:is_admin_key
+/// C04 / C19: a config is created only by a signing admin key; its protocol fee rate is within the bound and its three authorities are the ones given
+//@ fn instructions/initialize_config.rs handler -> r as=initialize_config_handler canary
+    requires constraints_InitializeConfig(old(ctx.accounts)),
+    ensures
+        r is Ok ==> is_admin_key_spec(old(ctx.accounts).funder.skey()) && old(ctx.accounts).funder.info.is_signer, //# C04
+        r is Ok ==> default_protocol_fee_rate <= 2_500 && final(ctx.accounts).config.data.default_protocol_fee_rate == default_protocol_fee_rate && final(ctx.accounts).config.data.fee_authority == fee_authority
+            && final(ctx.accounts).config.data.collect_protocol_fees_authority == collect_protocol_fees_authority && final(ctx.accounts).config.data.reward_emissions_super_authority == reward_emissions_super_authority, //# C19 C04
+//@ end
+//@ struct instructions/set_config_feature_flag.rs SetConfigFeatureFlag
+//@ constraints instructions/set_config_feature_flag.rs SetConfigFeatureFlag fn:is_admin_key
+/// C04: feature flags change only on the signature of an admin key, and nothing else in the config changes
+//@ fn instructions/set_config_feature_flag.rs handler -> r as=set_config_feature_flag_handler canary
+    requires constraints_SetConfigFeatureFlag(old(ctx.accounts)),
+    ensures
+        r is Ok ==> is_admin_key_spec(old(ctx.accounts).authority.skey()) && old(ctx.accounts).authority.info.is_signer, //# C04
+        r is Ok ==> final(ctx.accounts).whirlpools_config.data == (WhirlpoolsConfig { feature_flags: flags_after(old(ctx.accounts).whirlpools_config.data.feature_flags, feature_flag), ..old(ctx.accounts).whirlpools_config.data }), //# C04
+//@ end
 }
